@@ -779,12 +779,30 @@ def execute(h):
                     # a rate spec is any 3-element iterable
                     lib_specs.append(list(one) if (cur + i) % 3 == 0
                                      else one)
-                must_accept = model.update(op[2], specs)
+                feed_error = (len(str(op[3])) + 3 * i) % 17 == 0 and \
+                    pv is not None
+                if feed_error:
+                    # the iterable of rate specs fails while it is read (a
+                    # feed that breaks off): the update raises, and like
+                    # any rejected update it changes nothing - not even the
+                    # kind of validity
+                    must_accept = False
+                    bump(faults, 'rate_spec_iterable_raises')
+                else:
+                    must_accept = model.update(op[2], specs)
                 # rate_specs is documented as an Iterable: hand it over as
                 # list, tuple, iterator or generator
                 form = (len(op[3]) + len(str(op[2])) + i) % 4
                 container = [lib_specs, tuple(lib_specs), iter(lib_specs),
                              (s for s in lib_specs)][form]
+                if feed_error:
+                    def feed(specs=lib_specs, k=i % (len(lib_specs) + 1)):
+                        for j, sp in enumerate(specs):
+                            if j == k:
+                                raise LookupError('feed broke off')
+                            yield sp
+                        raise LookupError('feed broke off')
+                    container = feed()
                 if form >= 2:
                     bump(probes, 'rate_specs_as_one_shot_iterable')
                 o = observe(lambda: ('ok', convs[ci].update(
